@@ -1,4 +1,5 @@
 import Btdht.Proofs.Table
+import Btdht.Proofs.Split
 /-!
 # C08 — Routing table keeps its shape; a node is only traded for a strictly better one
 
@@ -20,8 +21,14 @@ rule, rejection by a full bucket of good nodes, admission when room or a worse n
 (`C08_trade`, `C08_full_good_rejects`, `C08_admit`), and at table level that an offer which does
 not split touches only the placement bucket (`C08_offer_local`) and that an unsplittable full
 bucket leaves the table unchanged (`C08_offer_rejected`).
-NOT proved in Lean (decided by the tie only, `check_trade` on the real table across splits):
-that `split_bucket` re-adds every live node of the split bucket (`C08_split_lossless`).
+Proved at table level for every offer to every table satisfying the invariant (so after any
+operation sequence), across any number of bucket splits: `split_bucket` re-adds every live node of
+the split bucket and touches no other bucket (`C08_split_lossless`); an offer removes at most one
+other live node, of strictly lower standing, and only from a bucket whose 8 slots are all live
+(`C08_table_trade`); an admissible newcomer is admitted unless its final placement bucket — after
+all the splits the code may perform — holds 8 live nodes none of which ranks below it
+(`C08_table_admit`); an inadmissible one (router address, bad standing, own id) changes nothing
+(`C08_offer_filtered`).
 -/
 namespace Btdht
 
@@ -273,6 +280,131 @@ theorem C08_offer_rejected (t : Table) (n : Node) (now : Nat) (b : Bucket)
           rw [hres] at hfull
           simp only at hfull
           simp only [hfull, Bool.false_eq_true, if_false, hnosplit]
+
+/-- an offer is *admissible* when it passes the three filters of `RoutingTable::add_node` -/
+def Admissible (t : Table) (n : Node) (now : Nat) : Prop :=
+  t.routers.contains n.handle.addr = false ∧ n.status now ≠ .bad ∧ lcp t.selfId n.handle.id ≠ maxBuckets
+
+/-- **C08 (router addresses, bad nodes and the own id are never admitted)**: such an offer leaves
+the table as it is. -/
+theorem C08_offer_filtered (t : Table) (n : Node) (now : Nat) (h : ¬ Admissible t n now) :
+    t.addNode n now = t := by
+  unfold Table.addNode
+  rw [Table.addNodeF.eq_1]
+  by_cases hr : t.routers.contains n.handle.addr = true
+  · simp only [hr, if_true]
+  · by_cases hb : n.status now = .bad
+    · simp only [hr, hb, if_true, Bool.false_eq_true, if_false]
+    · by_cases hk : lcp t.selfId n.handle.id = maxBuckets
+      · simp only [hr, hb, hk, if_true, Bool.false_eq_true, if_false]
+      · exact absurd ⟨by simpa using hr, hb, hk⟩ h
+
+/-- **C08 (`split_bucket` loses nothing; only the bucket covering the local id is split)**: for
+every table satisfying the invariant and every admissible offer, `add_node` is: zero or more
+splits leading to a table `tm` that (i) still satisfies the invariant, (ii) holds every node of
+`t` that is live at `now` (same `Node` value), (iii) holds nothing but slots of `t` and
+placeholders, (iv) agrees with `t` on every bucket but the last; followed by exactly one
+bucket-level `Bucket::add_node` on the placement bucket `b` of `tm` (to which `C08_trade`,
+`C08_full_good_rejects`, `C08_admit` apply). A split happens only when the placement bucket is the
+last one, is not bucket 159 and refused the node; if the node is refused in the end, no further
+split is possible. -/
+theorem C08_split_lossless (t : Table) (ht : TInv t) (n : Node) (now : Nat) (hadm : Admissible t n now) :
+    ∃ tm b, OfferShape t n (lcp t.selfId n.handle.id) now (t.addNode n now) tm b := by
+  obtain ⟨hr, hb, hk⟩ := hadm
+  have hshape := bucketNodeF_shape maxBuckets t n (lcp t.selfId n.handle.id) now ht rfl hk hr
+    (by have := ht.len_pos; omega)
+  unfold Table.addNode
+  rw [Table.addNodeF.eq_1]
+  simp only [hr, hb, hk, Bool.false_eq_true, if_false]
+  exact hshape
+
+/-- **C08 (table-level trade rule)**: whatever is offered to a table satisfying the invariant, every
+node that was live before and carries another (id, address) pair is still in the table afterwards
+(possibly in another bucket, after splits), with at most one exception — the victim — whose
+standing is strictly below the newcomer's and whose bucket consisted of 8 live nodes of `t` (no
+free or bad slot). -/
+theorem C08_table_trade (t : Table) (ht : TInv t) (n : Node) (now : Nat) :
+    ∃ victim : Option Node,
+      (∀ m ∈ t.allNodes, m.status now ≠ .bad → m.handle ≠ n.handle →
+        m ∈ (t.addNode n now).allNodes ∨ victim = some m) ∧
+      (∀ v, victim = some v → v.status now < n.status now ∧
+        ∃ b : Bucket, v ∈ b.nodes ∧ b.nodes.length = 8 ∧ ∀ x ∈ b.nodes, x.status now ≠ .bad ∧ x ∈ t.allNodes) := by
+  by_cases hadm : Admissible t n now
+  · obtain ⟨tm, b, sh⟩ := C08_split_lossless t ht n now hadm
+    obtain ⟨victim, hkeep, hvic⟩ := addNode_keeps b n now
+    refine ⟨victim, fun m hm hl hne => ?_, fun v hv => ?_⟩
+    · by_cases hv : victim = some m
+      · exact Or.inr hv
+      · left
+        rw [sh.result]
+        refine mem_allNodes_set tm _ b _ sh.bucket m (sh.lossless m hm hl) (fun hmb => ?_)
+        rcases hkeep m hmb hl hne with h | h
+        · exact h
+        · exact absurd h hv
+    · obtain ⟨hvb, hlt, hnobad⟩ := hvic v hv
+      have hbmem : b ∈ tm.buckets := List.mem_of_getElem? sh.bucket
+      refine ⟨hlt, b, hvb, sh.inv.slots b hbmem, fun x hx => ⟨hnobad x hx, ?_⟩⟩
+      rcases sh.noNew x ((mem_allNodes tm x).mpr ⟨b, hbmem, hx⟩) with h | h
+      · exact h
+      · exact absurd (status_bad_of_none x now h) (hnobad x hx)
+  · rw [C08_offer_filtered t n now hadm]
+    exact ⟨none, fun m hm _ _ => Or.inl hm, fun v hv => by simp at hv⟩
+
+/-- **C08 (table-level admission)**: an admissible newcomer whose (id, address) pair is not live in
+the table is in the table afterwards — unless the bucket it finally belongs to, after every split
+the code may perform, consists of 8 live nodes of `t` none of which ranks below the newcomer, and
+that bucket cannot be split (it is not the bucket covering the local id, or it is bucket 159). -/
+theorem C08_table_admit (t : Table) (ht : TInv t) (n : Node) (now : Nat) (hadm : Admissible t n now)
+    (hnew : ∀ x ∈ t.allNodes, x.status now ≠ .bad → x.handle ≠ n.handle) :
+    n ∈ (t.addNode n now).allNodes ∨
+    ∃ (tm : Table) (b : Bucket), Lossless t tm now ∧ t.addNode n now = tm ∧
+      tm.buckets[bucketPlacement (lcp t.selfId n.handle.id) tm.buckets.length]? = some b ∧
+      canSplitBucket tm.buckets.length (bucketPlacement (lcp t.selfId n.handle.id) tm.buckets.length) = false ∧
+      b.nodes.length = 8 ∧
+      ∀ x ∈ b.nodes, x ∈ t.allNodes ∧ x.status now ≠ .bad ∧ ¬ (x.status now < n.status now) := by
+  obtain ⟨tm, b, sh⟩ := C08_split_lossless t ht n now hadm
+  have hbmem : b ∈ tm.buckets := List.mem_of_getElem? sh.bucket
+  obtain ⟨hidx, hbe⟩ := List.getElem?_eq_some_iff.mp sh.bucket
+  have hin : ∀ x ∈ (b.addNode n now).1.nodes, x ∈ (t.addNode n now).allNodes := by
+    intro x hx
+    rw [sh.result, mem_allNodes]
+    exact ⟨_, List.mem_set hidx _, hx⟩
+  have hsameb : ∀ x ∈ b.nodes, x.handle = n.handle → x.status now = .bad := by
+    intro x hx he
+    refine Classical.byContradiction fun hl => ?_
+    rcases sh.noNew x ((mem_allNodes tm x).mpr ⟨b, hbmem, hx⟩) with h | h
+    · exact hnew x h hl he
+    · exact hl (status_bad_of_none x now h)
+  have ho := addNode_outcome b n now
+  generalize hres : b.addNode n now = r at ho hin
+  cases ho with
+  | offeredBad hb => exact absurd hb hadm.2.1
+  | updated i hi _ heq _ =>
+    left
+    apply hin
+    have hbad := hsameb _ (List.getElem_mem hi) heq
+    simp only
+    rw [modify_eq_set' _ _ _ hi, update_of_bad _ _ _ hbad hadm.2.1]
+    exact List.mem_set hi _
+  | tookFree i hi _ _ _ => exact Or.inl (hin _ (List.mem_set hi _))
+  | evicted i hi _ _ _ _ => exact Or.inl (hin _ (List.mem_set hi _))
+  | rejected _ _ hnobad hnoworse =>
+    right
+    refine ⟨tm, b, sh.lossless, ?_, sh.bucket, sh.final (by rw [hres]), sh.inv.slots b hbmem, fun x hx => ⟨?_, hnobad x hx, hnoworse x hx⟩⟩
+    · rw [sh.result, hres]
+      exact table_set_self tm _ b sh.bucket
+    · rcases sh.noNew x ((mem_allNodes tm x).mpr ⟨b, hbmem, hx⟩) with h | h
+      · exact h
+      · exact absurd (status_bad_of_none x now h) (hnobad x hx)
+
+/-- Non-vacuity of the table-level theorems: a fresh table with a router set satisfies the
+invariant and a responder with another id is admissible (tables that split are produced by the
+`table` engine on the real code and the model in lockstep: 160-bucket tables occur in every run). -/
+example :
+    let t := Table.init (List.replicate 20 0) [⟨false, [10, 0, 0, 9], 1⟩]
+    let n := Node.asGood ⟨1 :: List.replicate 19 0, ⟨false, [10, 0, 0, 1], 1⟩⟩ 1000
+    TInv t ∧ Admissible t n 1000 ∧ ¬ Admissible t (Node.asGood ⟨[1], ⟨false, [10, 0, 0, 9], 1⟩⟩ 1000) 1000 :=
+  ⟨tinv_init _ _, by unfold Admissible; decide, by unfold Admissible; decide⟩
 
 /-- Non-vacuity / regression for defect F08 (fixed in /repo): a questionable node followed by a
 good one into an empty bucket — both are kept. -/
